@@ -163,10 +163,13 @@ def write_shapefile(
         for i, polygon in enumerate(dataset.ems.polygons):
             if polygon is None:
                 continue
+            # The values are passed by position, in the order of the fields above.
+            # dBASE field names are limited to ten characters ('linear_ind'),
+            # and a keyword that does not match the truncated name is written as null.
             writer.record(
-                name=f'polygon{i}',
-                linear_index=i,
-                index=json.dumps(dataset.ems.wind_index(i)),
+                f'polygon{i}',
+                i,
+                json.dumps(dataset.ems.wind_index(i)),
             )
             writer.shape(polygon.__geo_interface__)
 
